@@ -47,7 +47,34 @@ func run(r *report.Run, cc *sim.ChainCase) *report.Failure {
 				return nil
 			}
 		case "block":
+			// a sibling of the pre-state (CopyState + epc.Clone(), i.e. sharing the pubkey cache): the same valid block
+			// is applied to it AFTER the original chain processed it — two forks of a chain that both include the block
+			var sib *sim.Lock
+			if a.Plan != nil && len(a.Plan.Queue) > 0 || i%7 == 3 {
+				if s, err := l.ForkLock(); err == nil {
+					sib = s
+				}
+			}
 			res := l.StepBlock(ctx, slot, a.Plan)
+			if sib != nil && res.Block != nil && res.BuildErr == nil && res.RefErr == nil && res.LibErr == nil && res.Diff == "" && res.SlotsErr == nil && res.SlotsDiff == "" && !res.BecameSkip {
+				if err := sib.ApplyBlockRef(res.Block); err == nil {
+					lerr, pan := sib.ApplyBlockLib(ctx, res.Block)
+					r.Eval(1)
+					r.Class("sibling-replays")
+					if res.Info != nil && hasKind(res.Info.Kinds, "deposit") {
+						r.Hit("sibling-replay-of-a-deposit-block")
+					}
+					if pan {
+						return report.Failf("sibling/panic", "slot %d: the block the original chain accepted panics on a sibling copy of the pre-state (cloned context): %v", slot, lerr)
+					}
+					if lerr != nil {
+						return report.Failf("sibling/rejected-valid:"+errClass(lerr), "slot %d kinds %v: a valid block accepted on the original chain is rejected on a sibling copy of the same pre-state (CopyState + EpochsContext.Clone, processed second): %v", slot, res.Info.Kinds, lerr)
+					}
+					if d := sib.Compare(); d != "" {
+						return report.Failf("sibling/diverge:"+diffClass(d), "slot %d kinds %v: sibling copy after the same block: %s", slot, res.Info.Kinds, trunc(d))
+					}
+				}
+			}
 			if res.BecameSkip {
 				r.Class("proposer-slashed-slot-skipped")
 				if res.LibErr != nil || res.Diff != "" {
@@ -147,6 +174,15 @@ func run(r *report.Run, cc *sim.ChainCase) *report.Failure {
 	return nil
 }
 
+func hasKind(ks []string, k string) bool {
+	for _, x := range ks {
+		if x == k {
+			return true
+		}
+	}
+	return false
+}
+
 func realKinds(ks []string) []string {
 	var out []string
 	for _, k := range ks {
@@ -204,7 +240,7 @@ func TestCheck(t *testing.T) {
 	if r.Replay != "" {
 		return
 	}
-	r.Mandatory("fork:phase0", "fork:altair", "fork:bellatrix", "fork:capella", "fork:deneb", "block-with>=3-kinds", "post-upgrade-epoch-block", "exit-behind-nonempty-queue", "withdrawal-carrying-payload", "sync-member-near-zero-balance-with-mixed-seats")
+	r.Mandatory("fork:phase0", "fork:altair", "fork:bellatrix", "fork:capella", "fork:deneb", "block-with>=3-kinds", "post-upgrade-epoch-block", "exit-behind-nonempty-queue", "withdrawal-carrying-payload", "sync-member-near-zero-balance-with-mixed-seats", "sibling-replay-of-a-deposit-block")
 	// ---- class tours: directed templates for deep situations the free generator reaches too rarely
 	nt := 2
 	if r.Thorough() {
